@@ -153,6 +153,9 @@ def native_check(contract, args, kwargs=None, only=None, window=12, with_domain=
     except Exception as ex:
         raised = ex
         result = None
+    if isinstance(raised, RecursionError):
+        # non-termination: the contracts are partial-correctness statements
+        return dict(status='diverged', failed=[], detail=repr(raised), result=None, raised=repr(raised))
     if raised is not None and must_return:
         failed.append(f'returns-normally-when-supported[{type(raised).__name__}]')
         detail.append(f'raised {raised!r} although every returns_when condition holds')
